@@ -4,11 +4,14 @@ import PqModel.PageLoad
 
 Spec side: `Crc.crc32` (byte-wise CRC-32/IEEE), `Crc.bitAt`/`Crc.xorBytes`, `PageLoad.Burst`,
 `PageLoad.writeHeader`, `PageLoad.Intact`/`Corrupted`.
-Mirror side: `PageLoad.load` / `readAll` / `readAt` with `PageLoad.current` (the unchanged file.go).
+Mirror side: `PageLoad.load` / `readAll` / `readAt` with `PageLoad.current` (file.go since 5000be7,
+which repaired F4: every loader path compares checksums).
 
-Two hypotheses of `load_detects` are forced by the code and both are findings, with the negation
-proved on the mirror below: the path must be one that verifies (F4: the dictionary loader does not)
-and the header must carry a non-zero CRC (F8: a page whose CRC-32 is 0 is written without the field).
+One hypothesis of `load_detects` remains forced by the code and is a known finding, with the negation
+proved on the mirror below: the header must carry a non-zero CRC (F8: a page whose CRC-32 is 0 is
+written without the field and never verified). The former second one — the path must be one that
+verifies (F4: the dictionary loader did not) — is gone; its negation is kept about the as-is mirror
+of the old code (`PageLoad.beforeFix`) under `_before_fix` names, as regression facts.
 Bursts wider than 32 bits are detected with probability 1 - 2^-32 only: not claimed. -/
 namespace PqModel.Props.C13
 open PqModel.Crc PqModel.PageLoad
@@ -52,23 +55,21 @@ theorem writer_crc_is_body_crc (rep defs page : List UInt8) :
 
 /-! ## Loader paths -/
 
-/-- **load_detects**: on every access path that verifies, a page whose header carries the (non-zero)
-    CRC of its body is rejected as corrupted after any burst ≤ 32 bits anywhere in the body
+/-- **load_detects**: on *every* access path of the code as it stands, a page whose header carries the
+    (non-zero) CRC of its body is rejected as corrupted after any burst ≤ 32 bits anywhere in the body
     (levels and values, compressed or not — the body is whatever bytes were checksummed). -/
-theorem load_detects (impl : Impl) (p : Path) (hv : verifies impl p = true) (h : Header)
+theorem load_detects (p : Path) (h : Header)
     (body err : Bytes) (hsize : h.compressedSize = body.length) (hlen : err.length = body.length)
     (h0 : h.crc ≠ 0#32) (hcrc : h.crc = crc32 body) (hb : Burst err) :
-    load impl p h (xorBytes body err) = .error .corrupted := by
-  have hd := readPage_detects h body err hsize hlen h0 hcrc hb
-  unfold load
-  cases p <;> simp_all [verifies, readDictionaryBody]
+    load current p h (xorBytes body err) = .error .corrupted :=
+  load_detects_of_verifies current p (verifies_current p) h body err hsize hlen h0 hcrc hb
 
 /-- the hypotheses are satisfiable: a real 14-byte data page body (RLE_DICTIONARY indexes) written by
-    the library, bit 3 of byte 9 flipped, on the unchanged code's sequential path -/
-example : load current .sequential (writeHeader .dataV2 [0x02, 0x05, 0xe4, 0xe4, 0xe4, 0xe4, 0x02, 0x00, 0x02, 0x01, 0x02, 0x02, 0x02, 0x03] true)
+    the library, bit 3 of byte 9 flipped, on the lazy dictionary path -/
+example : load current .lazyDictionary (writeHeader .dataV2 [0x02, 0x05, 0xe4, 0xe4, 0xe4, 0xe4, 0x02, 0x00, 0x02, 0x01, 0x02, 0x02, 0x02, 0x03] true)
     (xorBytes [0x02, 0x05, 0xe4, 0xe4, 0xe4, 0xe4, 0x02, 0x00, 0x02, 0x01, 0x02, 0x02, 0x02, 0x03]
               [0, 0, 0, 0, 0, 0, 0, 0, 0, 8, 0, 0, 0, 0]) = .error .corrupted :=
-  load_detects current .sequential rfl _ _ _ rfl rfl (by decide +kernel) rfl
+  load_detects .lazyDictionary _ _ _ rfl rfl (by decide +kernel) rfl
     ⟨⟨75, by decide⟩, ⟨75, by decide⟩⟩
 
 /-- an intact page is accepted on every path of every implementation: the error of `load_detects`
@@ -80,14 +81,8 @@ theorem load_intact (impl : Impl) (p : Path) (kind : PageKind) (body : Bytes) :
   unfold load
   cases p <;> cases hv : impl.dictLoaderVerifies <;> simp_all [readDictionaryBody, writeHeader]
 
-/-- the paths of the unchanged code that verify are exactly the two that go through `readPage` -/
-theorem current_verifying_paths :
-    Path.all.filter (verifies current) = [.sequential, .afterSeek] := by decide
-
-/-- with the proposed repair of F4 (`readDictionary` loads through `readPage`) every path verifies,
-    so `load_detects` covers all of them -/
-theorem repaired_all_paths_verify : ∀ p, verifies repairedF4 p = true := by
-  intro p; cases p <;> rfl
+/-- every path of the code as it stands compares checksums -/
+theorem current_all_paths_verify : ∀ p, verifies current p = true := verifies_current
 
 /-! ## Column chunk level -/
 
@@ -120,26 +115,32 @@ theorem readAt_detects_data_page (impl : Impl) (c : Chunk) (k : Nat) (bad : Stor
   rw [hk]
   simp [loadStored_corrupted impl .afterSeek rfl bad hc]
 
-/-- with the repair, a read that reaches a dictionary-encoded page after a seek also reports
-    corruption of the dictionary page (on the unchanged code it does not: `F4_witness`) -/
-theorem readAt_detects_dictionary_repaired (c : Chunk) (k : Nat) (s d : Stored)
+/-- a read that reaches a dictionary-encoded page after a seek reports corruption of the dictionary
+    page (before 5000be7 it did not: `F4_witness_before_fix`) -/
+theorem readAt_detects_dictionary (c : Chunk) (k : Nat) (s d : Stored)
     (hk : c.pages[k]? = some s) (hs : Intact s) (henc : s.hdr.dictEncoded = true)
-    (hd : c.dict = some d) (hc : Corrupted d) : readAt repairedF4 c k = .error .corrupted := by
+    (hd : c.dict = some d) (hc : Corrupted d) : readAt current c k = .error .corrupted := by
   unfold readAt
   rw [hk]
   simp [loadStored, load, readPage_intact s.hdr s.body hs.1 hs.2, henc, hd]
-  have := loadStored_corrupted repairedF4 .lazyDictionary rfl d hc
+  have := loadStored_corrupted current .lazyDictionary rfl d hc
   simp [loadStored, load] at this
   split at this <;> simp_all
 
-/-! ## F4 — the dictionary loader does not compare checksums (negation on the mirror) -/
+/-! ## F4 (repaired by 5000be7) — regression facts about the code before the fix
 
-/-- on the unchanged code the dictionary loader accepts any bytes of the right length -/
-theorem F4_dictionary_loader_accepts_anything (p : Path)
+`beforeFix` is the as-is mirror of the old `readDictionary` (bare `io.ReadFull`, no comparison). -/
+
+/-- before the fix only the two paths through `readPage` verified -/
+theorem verifying_paths_before_fix :
+    Path.all.filter (verifies beforeFix) = [.sequential, .afterSeek] := by decide
+
+/-- before the fix the dictionary loader accepted any bytes of the right length -/
+theorem F4_dictionary_loader_accepts_anything_before_fix (p : Path)
     (hp : p = .lazyDictionary ∨ p = .readDictionaryAPI) (h : Header) (s : Bytes)
-    (hs : s.length = h.compressedSize) : load current p h s = .ok { kind := h.kind, body := s } := by
+    (hs : s.length = h.compressedSize) : load beforeFix p h s = .ok { kind := h.kind, body := s } := by
   have hf : readFull h.compressedSize s = .ok s := by rw [← hs]; exact readFull_exact s
-  rcases hp with rfl | rfl <;> simp [load, readDictionaryBody, current, hf]
+  rcases hp with rfl | rfl <;> simp [load, readDictionaryBody, beforeFix, hf]
 
 /-- bodies of the column "name" of a file written by the library (PageBufferSize 1, page v2,
     uncompressed): PLAIN dictionary ["alpha","beta","gamma","delta"] and two index pages -/
@@ -154,18 +155,24 @@ def f4Chunk (dict : Bytes) : Chunk :=
     pages := [{ hdr := writeHeader .dataV2 f4Page true, body := f4Page },
               { hdr := writeHeader .dataV2 f4Page true, body := f4Page }] }
 
-/-- **F4**: the header CRC is the one the writer stored (0x3AECFFB6, non-zero); with one bit of the
-    dictionary body flipped a sequential read reports corruption, but a read that reaches page 1
-    after a seek returns the page together with the altered dictionary and no error — and so does
-    `ReadDictionary()`. -/
-theorem F4_witness :
+/-- **F4 before the fix**: the header CRC is the one the writer stored (0x3AECFFB6, non-zero); with one
+    bit of the dictionary body flipped a sequential read reported corruption, but a read that reached
+    page 1 after a seek returned the page together with the altered dictionary and no error — and so
+    did `ReadDictionary()`. -/
+theorem F4_witness_before_fix :
     (writeHeader .dictionary f4Dict).crc = 0x3AECFFB6#32 ∧
-    readAll current (f4Chunk f4DictBad) = .error .corrupted ∧
-    readAt current (f4Chunk f4DictBad) 1 =
+    readAll beforeFix (f4Chunk f4DictBad) = .error .corrupted ∧
+    readAt beforeFix (f4Chunk f4DictBad) 1 =
       .ok (some { kind := .dictionary, body := f4DictBad }, { kind := .dataV2, body := f4Page }) ∧
-    load current .readDictionaryAPI (writeHeader .dictionary f4Dict) f4DictBad =
-      .ok { kind := .dictionary, body := f4DictBad } ∧
-    readAt repairedF4 (f4Chunk f4DictBad) 1 = .error .corrupted := by
+    load beforeFix .readDictionaryAPI (writeHeader .dictionary f4Dict) f4DictBad =
+      .ok { kind := .dictionary, body := f4DictBad } := by
+  decide +kernel
+
+/-- the same witness on the code as it stands: reported on all three ways to the dictionary -/
+theorem F4_witness_now_detected :
+    readAll current (f4Chunk f4DictBad) = .error .corrupted ∧
+    readAt current (f4Chunk f4DictBad) 1 = .error .corrupted ∧
+    load current .readDictionaryAPI (writeHeader .dictionary f4Dict) f4DictBad = .error .corrupted := by
   decide +kernel
 
 /-! ## F8 — a page whose CRC-32 is 0 carries no CRC field and is never verified -/
@@ -180,12 +187,12 @@ theorem F8_crc_zero_accepts_anything (impl : Impl) (p : Path) (h : Header) (s : 
 /-- PLAIN int32 values 7, -3, 2^30, 42, -2081027679 (the last one chosen to zero the CRC) -/
 def f8Body : Bytes := [0x07, 0, 0, 0, 0xfd, 0xff, 0xff, 0xff, 0, 0, 0, 0x40, 0x2a, 0, 0, 0, 0xa1, 0x09, 0xf6, 0x83]
 
-/-- **F8**: the writer's header for this body has CRC 0 (so thrift drops the field), and the body with
-    bit 4 of byte 1 flipped (first value 7 → 4103) is accepted on the verifying sequential path, even
-    with the F4 repair in place. -/
+/-- **F8** (known finding): the writer's header for this body has CRC 0 (so thrift drops the field),
+    and the body with bit 4 of byte 1 flipped (first value 7 → 4103) is accepted on the verifying
+    sequential path of the code as it stands. -/
 theorem F8_witness :
     (writeHeader .dataV2 f8Body).crc = 0#32 ∧
-    load repairedF4 .sequential (writeHeader .dataV2 f8Body) (f8Body.set 1 0x10) =
+    load current .sequential (writeHeader .dataV2 f8Body) (f8Body.set 1 0x10) =
       .ok { kind := .dataV2, body := f8Body.set 1 0x10 } := by
   decide +kernel
 
